@@ -1,7 +1,8 @@
 """C06 — packet identifiers."""
 
 PROP = {'areas': [{'area': 'engine',
-            'corpus': ['corpus/engine/d11_half_encoded_connect_service_time.script',
+            'corpus': ['corpus/engine/seed_c06c_stale_id_after_session_loss.script',
+                       'corpus/engine/d11_half_encoded_connect_service_time.script',
                        'corpus/engine/d12_keep_alive_one_second.script',
                        'corpus/engine/d14_close_with_queued_disconnect.script',
                        'corpus/engine/d21_slow_start_failed_attempt.script',
